@@ -1006,6 +1006,23 @@ func slotTableElemStore(in ssa.Instruction) (*ssa.Store, ssa.Value, bool) {
 	return st, ia.Index, true
 }
 
+// reservedElem: v is element i of a slice parameter (newSlots[i]); the key names parameter and index value.
+func reservedElem(v ssa.Value) (string, bool) {
+	ld, ok := v.(*ssa.UnOp)
+	if !ok || ld.Op != token.MUL {
+		return "", false
+	}
+	ia, ok := ld.X.(*ssa.IndexAddr)
+	if !ok {
+		return "", false
+	}
+	p, ok := ia.X.(*ssa.Parameter)
+	if !ok {
+		return "", false
+	}
+	return p.Name() + "[" + ia.Index.Name() + "]", true
+}
+
 // pushedElems: the values stored into the [n]T array behind a `slice t[:]` variadic argument.
 func pushedElems(v ssa.Value) ([]ssa.Value, bool) {
 	sl, ok := v.(*ssa.Slice)
@@ -1107,6 +1124,63 @@ func ruleGRDslot(w *World, r *Report) {
 						key := fmt.Sprintf("push:%s#%d", fnName(fn), nPush)
 						if _, ok := elemOfFreeList(x); ok {
 							r.Ok("GRD-slot", key, w.Pos(st.Pos()), "re-files an entry that was read out of the free list itself (filter idiom)")
+							continue
+						}
+						// an unused reservation goes back: the pushed value is an element of a slice the caller handed in
+						// (target slots reserved for this batch), and within the same iteration that element is neither given
+						// to an id (stored into the slot table) nor pushed a second time
+						if pk, isRes := reservedElem(x); isRes {
+							h := innermostLoop(fn, st.Block())
+							blk := map[edgeKey]bool{}
+							if h != nil {
+								for _, p := range h.Preds {
+									for si, sc := range p.Succs {
+										if sc == h && h.Dominates(p) {
+											blk[edgeKey{p, si}] = true // one iteration: back edges closed
+										}
+									}
+								}
+							}
+							usesSame := func(in ssa.Instruction) bool {
+								if ts, _, isTbl := slotTableElemStore(in); isTbl {
+									k, ok := reservedElem(ts.Val)
+									return ok && k == pk
+								}
+								if o, isSt := in.(*ssa.Store); isSt && o != st {
+									if f2, ok := arenaField(o.Addr); ok && f2 == "freeSlots" {
+										if ap2, ok := o.Val.(*ssa.Call); ok && len(ap2.Call.Args) == 2 {
+											if el2, ok := pushedElems(ap2.Call.Args[1]); ok {
+												for _, y := range el2 {
+													if k, ok := reservedElem(y); ok && k == pk {
+														return true
+													}
+												}
+											} else {
+												return true // a bulk push: may contain it
+											}
+										}
+									}
+								}
+								return false
+							}
+							after, wa := (pathQuery{fn: fn, target: usesSame, blocked: blk}).find(posOf(st))
+							before := false
+							var wb []ssa.Instruction
+							for _, u := range findInstrs(fn, usesSame) {
+								self := ssa.Instruction(st)
+								if fd, wt := (pathQuery{fn: fn, target: func(in ssa.Instruction) bool { return in == self }, blocked: blk}).find(posOf(u)); fd {
+									before, wb = true, wt
+								}
+							}
+							if h != nil && !after && !before {
+								r.Ok("GRD-slot", key, w.Pos(st.Pos()), "returns a target slot reserved for this batch that the iteration gives to no id and pushes only once")
+								continue
+							}
+							wit := wa
+							if before {
+								wit = wb
+							}
+							r.Bad("GRD-slot", key, w.Pos(st.Pos()), fnName(fn)+" pushes a reserved target slot back onto the free list in an iteration that also gives that slot to an id (or pushes it twice): the slot is free and owned at once — the next AllocSlot hands it to a second id", w.witness(wit)...)
 							continue
 						}
 						// (1) paired with a slot-table store on every path, once per push
